@@ -59,11 +59,19 @@ package reporting
 //@   fresh
 //@   assigns nothing
 
+// The lines of a file are what bufio.Scanner's default split function yields for its content as delivered by
+// pass.ReadFile (lines without their terminators, no line after a final newline); a cached answer is returned as is.
 //@ func Reporter.getFileLines
 //@   props C19 C10
 //@   requires reporterOK(r)
 //@   assigns r.lineCache[all]
 //@   ensures reporterOK(r)
+//@   ensures old(indom(r.lineCache, filename)) ==> result == old(r.lineCache[filename])
+//@   ensures !old(indom(r.lineCache, filename)) ==> $called("Pass.ReadFile#1")
+//@   ensures !old(indom(r.lineCache, filename)) && $called("Pass.ReadFile#1") && $ret("Pass.ReadFile#1", 1) == nil ==> result == scanLines(string($ret("Pass.ReadFile#1", 0)))
+//@   at call Pass.ReadFile#1 assert $arg0 == filename
+//@   loop 1 invariant scanner != nil && scanner.$lines == scanLines(string(content)) && 0 <= scanner.$pos && scanner.$pos <= len(scanner.$lines) && len(lines) == scanner.$pos
+//@   loop 1 invariant forall k int :: 0 <= k && k < len(lines) ==> lines[k] == scanner.$lines[k]
 
 // The window of source lines shown around line lineNum (1-based): lines start+1 .. end+1 of the file, clamped to
 // the file, each numbered with its own 1-based line number; empty when the file has fewer lines than expected.
@@ -75,9 +83,13 @@ package reporting
 //@   ensures len(result.content) == len(result.lineNumbers)
 //@   ensures forall j int :: 0 <= j && j < len(result.lineNumbers) ==> result.lineNumbers[j] == start + j + 1
 //@   ensures len(result.content) <= before + after + 1
+// the excerpt is cut from the lines of the file: row j is line start+j+1
+//@   ensures forall j int :: 0 <= j && j < len(result.content) ==> start + j < len($ret("Reporter.getFileLines#1")) && result.content[j] == $ret("Reporter.getFileLines#1")[start + j]
+//@   at call Reporter.getFileLines#1 assert $arg0 == filename
 //@   assigns r.lineCache[all]
 //@   loop 1 invariant start <= $v && len(result.content) == $v - start && len(result.lineNumbers) == $v - start
 //@   loop 1 invariant forall j int :: 0 <= j && j < len(result.lineNumbers) ==> result.lineNumbers[j] == start + j + 1
+//@   loop 1 invariant forall j int :: 0 <= j && j < len(result.content) ==> start + j < len(lines) && result.content[j] == lines[start + j]
 //@   loop 1 invariant end < len(lines) && reporterOK(r) && ($v <= end + 1 || $v == start)
 
 // ---- C17 / C08: what is emitted ---------------------------------------------------------------------------------
